@@ -1408,8 +1408,30 @@ func (c *FnCtx) makeIface(st *State, in *ssa.MakeInterface) Val {
 		pay = c.declare("box", sInt)
 		c.assert(lt("0", pay))
 		c.eng.boxed[pay] = x
+		c.boxLeaves(in.X.Type(), pay, x)
 	}
 	return VIface{tid, pay}
+}
+
+// boxLeaves ties the leaves of a composite value to its interface payload through one
+// uninterpreted function per (type, leaf): unbox!T!i(pay) == leaf_i. Boxing asserts it for the
+// boxed value, unboxing for the value it returns, so that a composite survives a merge of
+// interface values and the contract (unbox(v, "T")) sees the value the code boxed.
+func (c *FnCtx) boxLeaves(t types.Type, pay string, v Val) {
+	leaves, sorts := flatten(v), leafSorts(v)
+	if len(leaves) != len(sorts) {
+		return
+	}
+	id := c.eng.typeID(t)
+	for i := range leaves {
+		fn := fmt.Sprintf("unbox!%d!%d", id, i)
+		decl := fmt.Sprintf("(declare-fun %s (Int) %s)", fn, sorts[i])
+		if old, dup := c.eng.ufDecls[fn]; dup && old != decl {
+			return // the shape of this type's values is not uniform: keep them opaque
+		}
+		c.eng.ufDecls[fn] = decl
+		c.assert(eq(app(fn, pay), leaves[i]))
+	}
 }
 
 func (c *FnCtx) execIndexAddr(st *State, in *ssa.IndexAddr) Val {
@@ -1528,6 +1550,7 @@ func (c *FnCtx) unbox(st *State, x VIface, t types.Type, ok string) Val {
 	}
 	v := c.freshVal(st, t, "unboxed")
 	c.unboxed[key] = v
+	c.boxLeaves(t, x.Pay, v)
 	return v
 }
 
